@@ -16,7 +16,6 @@ import (
 	"os/exec"
 	"runtime"
 	"runtime/debug"
-	"runtime/pprof"
 	"sort"
 	"strconv"
 	"strings"
@@ -187,26 +186,6 @@ func main() {
 		doReplay(os.Args[2])
 		return
 	}
-	if len(os.Args) > 3 && os.Args[1] == "bench" { // development aid: run one chunk in-process with a CPU profile
-		var c int
-		fmt.Sscan(os.Args[3], &c)
-		pf, _ := os.Create(os.Getenv("C01_PROF"))
-		pprof.StartCPUProfile(pf)
-		tuneGC()
-		for _, f := range families("quick") {
-			if f.Name() == os.Args[2] {
-				var res chunkRes
-				t0 := time.Now()
-				rts := newRuntimes()
-				for k := c; k < c+20 && k < f.Chunks(); k++ {
-					f.Run(rts, k, nil, &res, false)
-				}
-				fmt.Printf("%s chunk %d: progs=%d calls=%d hists=%d mism=%d err=%q in %v\n", f.Name(), c, res.Progs, res.Calls, res.Hists, len(res.Mis), res.Err, time.Since(t0))
-			}
-		}
-		pprof.StopCPUProfile()
-		return
-	}
 	if fw.IsChild() {
 		tier := os.Getenv("VERIF_TIER")
 		for _, a := range os.Args[1:] {
@@ -250,7 +229,8 @@ func main() {
 			u := us[i]
 			if crash != nil {
 				// A crash or hang of a child while executing by-construction-valid programs.
-				if crash.Kind == "crash" && (strings.Contains(crash.Stderr, "out of memory") || strings.Contains(crash.Stderr, "cannot allocate")) {
+				if crash.Kind == "crash" && (strings.Contains(crash.Stderr, "out of memory") || strings.Contains(crash.Stderr, "cannot allocate") || strings.Contains(crash.Stderr, "signal: killed")) {
+					// the machine (not the program under test) ran out of memory or killed the worker: not a verdict
 					fw.Fatalf("child ran out of memory in %s chunk %d: %s", u.fam.Name(), u.chunk, fw.FirstLines(crash.Stderr, 3))
 				}
 				kind := "crash"
